@@ -130,7 +130,9 @@ def step (d : DState) (line : String) : DState × String :=
     | some id, some reply => (d, match Robust.Api.getSession d.st ⟨id, reply⟩ with
       | .ok _ => "found" | .error .noSuchSession => "nosuch" | .error .notYetSeen => "notyet" | .error _ => "error")
     | _, _ => (d, "bad-op")
-  | ["M"] => if d.broken then (d, "skipped") else ({ d with st := saveLoad d.st }, "ok")
+  | ["M"] => if d.broken then (d, "skipped") else
+      -- also report whether the hypotheses of C03_state (executable forms) hold at this cut
+      ({ d with st := saveLoad d.st }, "ok" ++ (if canonB d.st && invB d.st then "" else s!" hyp canon={canonB d.st} inv={invB d.st}"))
   | ["D"] => if d.broken then (d, "skipped") else (d, dumpState d.st)
   | ["W"] => if d.broken then (d, "skipped") else (d, (if invB d.st then "walk ok" else "walk bad " ++ invWhy d.st) ++ (if d.tainted then " tainted" else ""))
   | _ => (d, "bad-op")
